@@ -10,3 +10,10 @@ INVARIANT Inv_Partition
 INVARIANT Inv_Accepted
 INVARIANT Inv_Linear
 CHECK_DEADLOCK FALSE
+PROPERTY Prop_AppendOnly
+PROPERTY Prop_ScannerForward
+PROPERTY Prop_LookAheadPure
+PROPERTY Prop_Requeue
+PROPERTY Prop_ErrorStays
+PROPERTY Prop_MoveOnlyOnDelivery
+PROPERTY Prop_DoneFinal
